@@ -3563,6 +3563,14 @@ class TLSConnection(TLSRecordLayer):
                     "Malformed signature_algorithms extension"):
                 yield result
 
+        # the same holds for the list in the delegated_credential extension
+        ext = clientHello.getExtension(ExtensionType.delegated_credential)
+        if ext and not ext.sigalgs:
+            for result in self._sendError(
+                    AlertDescription.decode_error,
+                    "Malformed delegated_credential extension"):
+                yield result
+
         # Sanity check the ALPN extension
         alpnExt = clientHello.getExtension(ExtensionType.alpn)
         if alpnExt:
